@@ -33,6 +33,13 @@
 /* k-th logged call: slot i of array arr receives val when the counter was i, else keeps its value */
 #define VF_IO_SLOT(cnt, arr, i, val)	((__CPROVER_old(cnt) == (i)) ? ((arr)[i] == (val)) : ((arr)[i] == __CPROVER_old((arr)[i])))
 #define VF_IO_SLOTS4(cnt, arr, val)	(VF_IO_SLOT(cnt, arr, 0, val) && VF_IO_SLOT(cnt, arr, 1, val) && VF_IO_SLOT(cnt, arr, 2, val) && VF_IO_SLOT(cnt, arr, 3, val))
+/* -DVF_EC_LIGHT: the "result < m" clauses of the modular operations are dropped (weaker, still sound
+ * assumptions) for jobs whose obligations do not need them and whose formula is otherwise too large */
+#ifdef VF_EC_LIGHT
+#define VF_LT(x, y)	1
+#else
+#define VF_LT(x, y)	((x) < (y))
+#endif
 #define VF_SIGN(x, y)		(((x) > (y)) ? 1 : (((x) < (y)) ? -1 : 0))
 #define VF_BN_CNT_OK(p)		((p)->count >= 1 && (p)->count <= BN_MAX_DIGITS)
 #define VF_ECBN_RW(p)		(VF_BN_OK(p) && vf_bn_wf(*(p)))
@@ -128,7 +135,7 @@ __CPROVER_ensures(VF_EC_STATUS_ENSURES)
 __CPROVER_ensures(vf_n_mod == __CPROVER_old(vf_n_mod) + 1u && vf_mod_last_bn == VF_ID(bn) && vf_mod_last_m == VF_ID(m))
 __CPROVER_ensures(VF_IO_SLOTS4(vf_n_mod, vf_mod_bn, VF_ID(bn)) && VF_IO_SLOTS4(vf_n_mod, vf_mod_m, VF_ID(m)))
 __CPROVER_ensures(__CPROVER_return_value == 0 ==> vf_mod_val == vf_bn_val(*bn))
-__CPROVER_ensures(__CPROVER_return_value == 0 ==> (vf_bn_wf(*bn) && vf_bn_val(*bn) < vf_bn_val(*m)))
+__CPROVER_ensures(__CPROVER_return_value == 0 ==> (vf_bn_wf(*bn) && VF_LT(vf_bn_val(*bn), vf_bn_val(*m))))
 ;
 /* (bn * n) mod m: result < m */
 static inline int
@@ -137,7 +144,7 @@ __CPROVER_requires(VF_ECBN_RW(bn) && VF_ECBN_R(n) && VF_ECBN_R(m) && bn != m)
 __CPROVER_assigns(VF_BN_FRAME(bn))
 __CPROVER_assigns(VF_EC_STATUS_ASSIGNS)
 __CPROVER_ensures(VF_EC_STATUS_ENSURES)
-__CPROVER_ensures(__CPROVER_return_value == 0 ==> (vf_bn_wf(*bn) && vf_bn_val(*bn) < vf_bn_val(*m)))
+__CPROVER_ensures(__CPROVER_return_value == 0 ==> (vf_bn_wf(*bn) && VF_LT(vf_bn_val(*bn), vf_bn_val(*m))))
 ;
 static inline int
 bn_mod_square(bn_p bn, bn_p m, bn_mod_rd_data_p mod_rd_data)
@@ -145,7 +152,7 @@ __CPROVER_requires(VF_ECBN_RW(bn) && VF_ECBN_R(m) && bn != m)
 __CPROVER_assigns(VF_BN_FRAME(bn))
 __CPROVER_assigns(VF_EC_STATUS_ASSIGNS)
 __CPROVER_ensures(VF_EC_STATUS_ENSURES)
-__CPROVER_ensures(__CPROVER_return_value == 0 ==> (vf_bn_wf(*bn) && vf_bn_val(*bn) < vf_bn_val(*m)))
+__CPROVER_ensures(__CPROVER_return_value == 0 ==> (vf_bn_wf(*bn) && VF_LT(vf_bn_val(*bn), vf_bn_val(*m))))
 ;
 static inline int
 bn_mod_mult_digit(bn_p bn, bn_digit_t n, bn_p m, bn_mod_rd_data_p mod_rd_data)
@@ -156,7 +163,7 @@ __CPROVER_ensures(VF_EC_STATUS_ENSURES)
 __CPROVER_ensures(vf_n_mult_digit3 == __CPROVER_old(vf_n_mult_digit3) + ((n == 3) ? 1u : 0u))
 __CPROVER_ensures(vf_n_mult_digit == __CPROVER_old(vf_n_mult_digit) + 1u && vf_mult_digit_d == n &&
     vf_mult_digit_bn == VF_ID(bn) && vf_mult_digit_m == VF_ID(m))
-__CPROVER_ensures(__CPROVER_return_value == 0 ==> (vf_bn_wf(*bn) && vf_bn_val(*bn) < vf_bn_val(*m)))
+__CPROVER_ensures(__CPROVER_return_value == 0 ==> (vf_bn_wf(*bn) && VF_LT(vf_bn_val(*bn), vf_bn_val(*m))))
 ;
 static inline int
 bn_mod_exp_digit(bn_p bn, size_t exp, bn_p m, bn_mod_rd_data_p mod_rd_data)
@@ -187,7 +194,7 @@ __CPROVER_ensures(VF_EC_STATUS_ENSURES)
 __CPROVER_ensures(vf_n_msub == __CPROVER_old(vf_n_msub) + 1u &&
     vf_msub_z0 == ((__CPROVER_old(vf_n_msub) == 0) ? (__CPROVER_return_value == 0 && bn->digits == 0) : __CPROVER_old(vf_msub_z0)) &&
     vf_msub_z1 == ((__CPROVER_old(vf_n_msub) == 1) ? (__CPROVER_return_value == 0 && bn->digits == 0) : __CPROVER_old(vf_msub_z1)))
-__CPROVER_ensures(__CPROVER_return_value == 0 ==> (vf_bn_wf(*bn) && vf_bn_val(*bn) < vf_bn_val(*m)))
+__CPROVER_ensures(__CPROVER_return_value == 0 ==> (vf_bn_wf(*bn) && VF_LT(vf_bn_val(*bn), vf_bn_val(*m))))
 ;
 VF_ECBN_MODOP1(bn_mod_sqrt)
 /* bn^-1 mod m; first line of bn_mod_inv_bin: bn == 0, m == 0 or bn >= m is EINVAL.
